@@ -223,7 +223,9 @@ def plan(prop, tier, seed):
         fam(n(25, 400), scen.inject_session, "inject")
     elif prop == "C12":
         data(n(25, 300)); data(n(15, 150), with_close=True, updates=True); fam(n(10, 150), scen.large_session, "large"); fam(n(10, 100), scen.window_session, "window")
-        fam(n(12, 200), scen.unit_session, "unit")
+        fam(n(12, 200), scen.unit_session, "unit"); fam(n(10, 150), scen.bytebuf_session, "bytebuf")
+        if not q:
+            G.append([("bytebuf-all-alignments", scen.bytebuf_session(seed, n=0, exhaustive=True))])
     elif prop == "C13":
         data(n(40, 400)); fam(n(20, 200), scen.window_session, "window"); fam(n(6, 100), scen.deep_session, "deep"); fam(n(10, 150), scen.wrap_partial_session, "wrap-partial")
     elif prop == "C14":
